@@ -10,7 +10,8 @@ from ..values import SymNum, Obj
 from .. import spec
 
 LEGAL_NAMES = ["x", "_a", "x1", "9", "self", "cls", "kwargs", "args", "variable", "variable_name", "value",
-               "point", "expression", "compute_early", "_private", "name", "other", "coordinates", "αβ"]
+               "point", "expression", "compute_early", "_private", "name", "other", "coordinates", "αβ",
+               "\u00b5", "\uff58", "x\u00b2", "\ufb01", "\u00aa", "\u212b", "x\u0660"]
 
 
 def coord_case(args):
